@@ -47,6 +47,7 @@ type MapDesc struct {
 	Keys    map[string]KeyNote            // sub-handler ""
 	SubKeys map[string]map[string]KeyNote // further sub-handlers: name -> key -> note
 	Axes    []AxisDesc
+	SubAxes map[string][]AxisDesc // axes of further sub-handlers
 }
 
 type Desc struct {
@@ -107,50 +108,57 @@ func (d *Desc) TOML() string {
 				fmt.Fprintf(&b, "      %s = \"%d,%d\"\n", k, kn.Note, kn.Offset)
 			}
 		}
-		if len(m.Axes) > 0 {
-			b.WriteString("  [[mapping.analog]]\n    subhandler = \"\"\n    default_deadzone = 0.3\n    [mapping.analog.map]\n")
-			for _, a := range m.Axes {
-				f := []string{fmt.Sprintf("type = %q", a.Type)}
-				switch a.Type {
-				case "cc":
-					f = append(f, fmt.Sprintf("cc = %d", a.CC))
-					if a.CCNeg >= 0 {
-						f = append(f, fmt.Sprintf("cc_negative = %d", a.CCNeg))
-					}
-				case "key":
-					f = append(f, fmt.Sprintf("note = %d", a.Note))
-					if a.NoteNeg >= 0 {
-						f = append(f, fmt.Sprintf("note_negative = %d", a.NoteNeg))
-					}
-				case "action":
-					f = append(f, fmt.Sprintf("action = %q", a.Action), fmt.Sprintf("action_negative = %q", a.ActNeg))
-				}
-				if a.Off != 0 {
-					f = append(f, fmt.Sprintf("channel_offset = %d", a.Off))
-				}
-				if a.OffNeg != 0 {
-					f = append(f, fmt.Sprintf("channel_offset_negative = %d", a.OffNeg))
-				}
-				if a.Flip {
-					f = append(f, "flip_axis = true")
-				}
-				if a.DZCenter {
-					f = append(f, "deadzone_at_center = true")
-				}
-				fmt.Fprintf(&b, "      %s = { %s }\n", a.Name, strings.Join(f, ", "))
-			}
-			b.WriteString("    [mapping.analog.deadzones]\n")
-			for _, a := range m.Axes {
-				dz := fmt.Sprintf("%v", a.Deadzone)
-				if !strings.Contains(dz, ".") {
-					dz += ".0"
-				}
-				fmt.Fprintf(&b, "      %s = %s\n", a.Name, dz)
-			}
+		renderAxes(&b, "", m.Axes)
+		for _, sub := range sortedKeys(m.SubAxes) {
+			renderAxes(&b, sub, m.SubAxes[sub])
 		}
 		b.WriteString("\n")
 	}
 	return b.String()
+}
+
+func renderAxes(b *strings.Builder, sub string, axes []AxisDesc) {
+	if len(axes) > 0 {
+		fmt.Fprintf(b, "  [[mapping.analog]]\n    subhandler = %q\n    default_deadzone = 0.3\n    [mapping.analog.map]\n", sub)
+		for _, a := range axes {
+			f := []string{fmt.Sprintf("type = %q", a.Type)}
+			switch a.Type {
+			case "cc":
+				f = append(f, fmt.Sprintf("cc = %d", a.CC))
+				if a.CCNeg >= 0 {
+					f = append(f, fmt.Sprintf("cc_negative = %d", a.CCNeg))
+				}
+			case "key":
+				f = append(f, fmt.Sprintf("note = %d", a.Note))
+				if a.NoteNeg >= 0 {
+					f = append(f, fmt.Sprintf("note_negative = %d", a.NoteNeg))
+				}
+			case "action":
+				f = append(f, fmt.Sprintf("action = %q", a.Action), fmt.Sprintf("action_negative = %q", a.ActNeg))
+			}
+			if a.Off != 0 {
+				f = append(f, fmt.Sprintf("channel_offset = %d", a.Off))
+			}
+			if a.OffNeg != 0 {
+				f = append(f, fmt.Sprintf("channel_offset_negative = %d", a.OffNeg))
+			}
+			if a.Flip {
+				f = append(f, "flip_axis = true")
+			}
+			if a.DZCenter {
+				f = append(f, "deadzone_at_center = true")
+			}
+			fmt.Fprintf(b, "      %s = { %s }\n", a.Name, strings.Join(f, ", "))
+		}
+		b.WriteString("    [mapping.analog.deadzones]\n")
+		for _, a := range axes {
+			dz := fmt.Sprintf("%v", a.Deadzone)
+			if !strings.Contains(dz, ".") {
+				dz += ".0"
+			}
+			fmt.Fprintf(b, "      %s = %s\n", a.Name, dz)
+		}
+	}
 }
 
 // ---- event alphabet
@@ -234,6 +242,18 @@ func (d *Desc) Alphabet() []Sym {
 			out = append(out, Sym{Name: a.Name, IsAxis: true, Code: code, Min: a.Min, Max: a.Max, Pos: a.Pos})
 		}
 	}
+	for _, m := range d.Mappings {
+		for _, sub := range sortedKeys(m.SubAxes) {
+			for _, a := range m.SubAxes[sub] {
+				n := sub + ":" + a.Name
+				if seen[n] {
+					continue
+				}
+				seen[n] = true
+				out = append(out, Sym{Sub: sub, Name: n, IsAxis: true, Code: evdev.ABSFromString[a.Name], Min: a.Min, Max: a.Max, Pos: a.Pos})
+			}
+		}
+	}
 	return out
 }
 
@@ -257,6 +277,11 @@ func (d *Desc) Build(out chan midi.Event, sigs chan os.Signal) (*device.Device, 
 	for _, m := range d.Mappings {
 		for _, a := range m.Axes {
 			abs[evdev.ABSFromString[a.Name]] = evdev.AbsInfo{Minimum: a.Min, Maximum: a.Max}
+		}
+		for _, as := range m.SubAxes {
+			for _, a := range as {
+				abs[evdev.ABSFromString[a.Name]] = evdev.AbsInfo{Minimum: a.Min, Maximum: a.Max}
+			}
 		}
 	}
 	in := input.Device{
